@@ -360,6 +360,14 @@ def spec(fn):
     return fn
 
 
+_CURRENT = [None]
+
+
+def current_ctx():
+    """the path context of the running symbolic execution (None when contract code runs natively)"""
+    return _CURRENT[0]
+
+
 OPAQUE = {}
 INSTALLERS = []       # functions(reg) registered by contract modules (assumed constructor / callee models)
 
